@@ -84,11 +84,11 @@ def q(t):
     return (t // 1000) * 1000
 
 
-def tl_ping(role, I, T, t0, x, reaction, restart, pre=None):
+def tl_ping(role, I, T, t0, x, reaction, restart, pre=None, size=16):
     """pre: events delivered right after the handshake, before the first ping (e.g. the first fragment of a message, or
     the head of a frame whose tail is the reaction)"""
-    cfg = base_cfg(role=role, openTO=2000, closeTO=1000, dropTO=1000, t0=t0, pingInt=I, pingTO=T, restart=restart, pingSize=16)
-    F1 = q(t0 + I)                       # first auto ping (only used to place the events; the oracle reads the real ping time)
+    cfg = base_cfg(role=role, openTO=2000, closeTO=1000, dropTO=1000, t0=t0, pingInt=I, pingTO=T, restart=restart, pingSize=size)
+    F1 = max(t0, q(t0 + I))                       # first auto ping (only used to place the events; the oracle reads the real ping time)
     evs = [["hs"]] + [list(e) for e in (pre or [])] + [["tick", F1]]
     if reaction is not None:
         evs += [["tick", F1 + x], reaction]
@@ -101,8 +101,8 @@ def tl_ping(role, I, T, t0, x, reaction, restart, pre=None):
                                                rkind=rk + ("" if qualifies or reaction is None else "(non-qualifying)")))
 
 
-def tl_periodic(role, I, T, t0, r, n, restart, with_data):
-    cfg = base_cfg(role=role, openTO=2000, closeTO=1000, dropTO=1000, t0=t0, pingInt=I, pingTO=T, restart=restart, pingSize=12)
+def tl_periodic(role, I, T, t0, r, n, restart, with_data, size=12):
+    cfg = base_cfg(role=role, openTO=2000, closeTO=1000, dropTO=1000, t0=t0, pingInt=I, pingTO=T, restart=restart, pingSize=size)
     evs = [["hs"]]
     for _ in range(n):
         evs += [["tickrel", "next"]]
@@ -193,12 +193,24 @@ def oracle17(case, res, fw):
             if dropped_by_this or (td is not None and td < reaction):
                 bad.append((key + "/responsive-peer-dropped", f"armed {armed}, deadline {D}, reaction at {reaction}, drop at {td}, reason {final['flags']['ncr']}"))
             if m["timer"] == "ping" and td is not None and td <= D:
-                bad.append((key + "/responsive-peer-dropped", f"ping at {armed}, deadline {D}, qualifying reaction at {reaction}, dropped at {td}"))
+                # the reaction answers every ping written before it; a ping written after it that stays unanswered may
+                # time out, but not earlier than one granularity step (1 s) before ITS deadline
+                ri = max(i for i, e in enumerate(evs, 1) if e[0].startswith("peer"))      # step of the reaction: the last peer event of the timeline
+                later = [o[0] for i, s in enumerate(steps) if i > ri for o in s["out"] if o[1] == "wping" and o[2] is not None]
+                if not later or td <= later[0] + T - 1000:
+                    bad.append((key + "/responsive-peer-dropped", f"ping at {armed}, deadline {D}, qualifying reaction at {reaction}, dropped at {td}"
+                                + (f", next ping at {later[0]}" if later else "")))
     elif m["timer"] == "periodic":
         pings = [o[0] for s in steps for o in s["out"] if o[1] == "wping" and o[2] is not None]
         I, r, n = m["I"], m["r"], m["n"]
         key = f"{role}/ping-periodic/I={I}/answers={m['answers']}"
         expect_pings = n + 1 if (m["answers"] == "pong" or (cfg["restart"] and cfg["pingTO"] > 0)) else 1
+        # the property grants every timeout one second of granularity: with whole-second settings pings and deadlines
+        # fall on whole seconds and an answer before the deadline is in time; with fractional settings the timeout may
+        # fire up to 1 s early, and only answers with a full second to spare are judged here (the rest: model comparison)
+        whole = I % 1000 == 0 and cfg["pingTO"] % 1000 == 0
+        if cfg["pingTO"] and not whole and r + 1000 > cfg["pingTO"]:
+            return bad
         if final["state"] != "OPEN" and expect_pings == n + 1:
             bad.append((key + "/not-open", f"a peer that answers every ping after {r} ms ended in {final['state']} ({final['flags']['ncr']})"))
         if expect_pings == n + 1:
@@ -291,6 +303,31 @@ def families(quick):
                         for restart in (True, False):
                             L.append(tl_periodic(role, I, T, t0, r, 4, restart, False))
                             L.append(tl_periodic(role, I, T, t0, r, 4, restart, True))
+    # the whole documented range of autoPingSize (12..125: both ends, their neighbours, the middle) and boundary values of
+    # the other ping options (sub-second and fractional interval / timeout, timeout <, =, > interval): silent peer,
+    # matching pong at every offset, non-matching pong, data frame; and the periodic cycle
+    L = fam.setdefault("pingopts", [])
+    SIZES = (12, 13, 64, 124, 125)
+    ODD = ((125, 125), (500, 500), (1500, 500), (500, 1500), (1000, 125), (125, 1000), (2500, 1500), (1000, 1000))
+    for role in roles:
+        for t0 in t0s:
+            for size in SIZES:
+                for I, T in ((1000, 0), (1000, 1000), (2000, 2000)):
+                    L.append(tl_ping(role, I, T, t0, 0, None, True, size=size))
+                    for x in offsets(T, True):
+                        L.append(tl_ping(role, I, T, t0, x, ["peerPong", True], True, size=size))
+                    L.append(tl_ping(role, I, T, t0, 250, ["peerPong", False], False, size=size))
+                    L.append(tl_ping(role, I, T, t0, 250, ["peerData"], True, size=size))
+                    L.append(tl_periodic(role, I, T, t0, 125, 3, True, False, size=size))
+                    L.append(tl_periodic(role, I, T, t0, 500, 3, False, True, size=size))
+            for I, T in ODD:
+                for size in (12, 125):
+                    L.append(tl_ping(role, I, T, t0, 0, None, True, size=size))
+                    for x in offsets(T, True):
+                        L.append(tl_ping(role, I, T, t0, x, ["peerPong", True], False, size=size))
+                    for r in (0, 125, 375):
+                        if r < T:
+                            L.append(tl_periodic(role, I, T, t0, r, 3, True, False, size=size))
     L = fam.setdefault("dead", [])
     for role in roles:
         for how in ("peerclose", "sendclose-reply", "violation", "closetimeout"):
@@ -305,7 +342,9 @@ def run(ck):
                    "handshake / close reply / TCP drop / matching pong / non-matching pong / unfragmented data frame / first, middle, "
                    "last fragment / head or tail of a frame read in two pieces / ping) placed at every grid point "
                    "from the arming time to 1 s after the deadline, or absent; periodic pings answered after {0,125,500,875} ms for "
-                   "4 rounds; timers left pending across CLOSED. non-trivial = left CONNECTING or timed out; distinct = distinct "
+                   "4 rounds; autoPingSize in {12,13,64,124,125} and sub-second / fractional autoPingInterval, autoPingTimeout "
+                   "(timeout <, =, > interval) on silent / answering / periodic timelines; an exception escaping from a timer callback or "
+                   "any other entry point is a violation by itself; timers left pending across CLOSED. non-trivial = left CONNECTING or timed out; distinct = distinct "
                    "(framework, cfg, timeline)")
     ck.extra_tb += c05.TRUSTED
     ck.extra_tb.append("oracle assumptions: 'within the timeout' = a qualifying reaction at a time <= deadline; reactions in the last "
